@@ -343,7 +343,7 @@ def check_loop_conservation(rep: Report, rule: str) -> None:
     rep.analysed(gn, ga)
     gctx = norm.ctx_for(gn, subst_locals=False)
     defs = [n for n in gn.node.body if isinstance(n, ast.AnnAssign) and isinstance(n.target, ast.Name) and n.target.id == "new_acquired_lot_amount"]
-    want = ("ite", ("cmp", "is not", LOT, ("const", None)), mk_add([L, mk_neg(E)]), ("const", __import__("decimal").Decimal(0)))
+    want = ("ite", ("cmp", "is", LOT, ("const", None)), ("const", __import__("decimal").Decimal(0)), mk_add([L, mk_neg(E)]))
     got = norm.term(defs[0].value, gctx) if defs else ("unk", "")
     rep.check(tkey(got) == tkey(want), rule, gn.module, gn.qualname, "engine: remaining lot amount = lot amount - event amount", f"get_next_taxable_event_and_amount computes the lot's remaining amount as {show(got)[:200]}; expected acquired_lot_amount - taxable_event_amount (ZERO without a lot)", loc(gn.node))
     actx = norm.ctx_for(ga, subst_locals=False)
@@ -485,7 +485,7 @@ def check_reseek(rep: Report, rule: str) -> None:
         rep.check(ok, rule, gn.module, gn.qualname, "timestamp advance: remaining lot amount is stored back before a lot is sought for the new event", "when the new event is later than the previous one the current lot's remaining amount is not stored back before the seek (or no seek happens): the better-ranked remainder would be passed over or lost", loc(gn.node))
         if idx_put:
             a = dict(p.events[idx_put[0]][1][2])
-            want_amt = ("ite", ("cmp", "is not", ("sym", "acquired_lot"), ("const", None)), mk_add([L, mk_neg(E)]), ("const", __import__("decimal").Decimal(0)))
+            want_amt = ("ite", ("cmp", "is", ("sym", "acquired_lot"), ("const", None)), ("const", __import__("decimal").Decimal(0)), mk_add([L, mk_neg(E)]))
             okp = a.get("acquired_lot") == ("sym", "acquired_lot") and tkey(a.get("amount", ("unk", ""))) == tkey(want_amt)
             rep.check(okp, rule, gn.module, gn.qualname, "put-back amount = lot amount - event amount, for the current lot", f"the amount stored back is {show(a.get('amount'))[:160] if a.get('amount') else None} for {show(a.get('acquired_lot')) if a.get('acquired_lot') else None}; expected the current lot with acquired_lot_amount - taxable_event_amount", loc(gn.node))
         if idx_seek:
@@ -707,3 +707,161 @@ def check_schedule_traversal(rep: Report, rule: str) -> None:
                 if unparse(st.test) in (f"{node_var}.{side}", f"{node_var}.{side} is not None") and any(isinstance(c, ast.Call) and isinstance(c.func, ast.Attribute) and c.func.attr in ("append", "push", "appendleft") and unparse(c.args[0]) == f"{node_var}.{side}" for b in st.body for c in ast.walk(b)):
                     pushes[side] = st
     rep.check(set(pushes) == {"left", "right"}, rule, init.module, init.qualname, "both children of every schedule node are scheduled, under independent top-level conditions", f"the traversal schedules {sorted(pushes)} children with top-level, independent 'if' statements (found {[short(st.test, 30) for st in lp.body if isinstance(st, ast.If)]}; an elif / nested test skips a subtree): the years in a skipped subtree get no candidate structure, so their disposals are matched over another year's candidates, ordered by the other method's key", where)
+
+
+# --------------------------------------------------------------------------- shared: the cell sink writes what it is given
+def check_cell_sink(rep: Report, rule: str) -> None:
+    """Every rule about report cells reads ``_fill_cell(sheet, row, column, value)`` as 'cell (row, column) shows value'. That premise is an obligation on the
+    sink itself: on every returning path it writes exactly once, to sheet[row_index, column_index], the value it received, or float(value) for an RP2Decimal."""
+    from .symexec import SPath, SymExec
+
+    m = model()
+    prog, norm = m.prog, m.norm
+    f = prog.func("rp2.plugin.report.abstract_ods_generator", "AbstractODSGenerator._fill_cell")
+    rep.analysed(f)
+    ctx = norm.ctx_for(f, subst_locals=False)
+    paths = [p for p in SymExec(norm, ctx).run(f.node.body, SPath()) if p.exit != "raise"]
+    if not paths:
+        raise AnalysisError("_fill_cell has no returning path")
+    value = ("sym", "value")
+    bad = {}
+    n = 0
+    for p in paths:
+        writes = []
+        for e in p.events:
+            if e[0] == "setattr" and str(e[2]).endswith("formula"):
+                writes.append((e[1], e[3], e[-1]))
+            elif e[0] == "call" and e[1][0] in ("xcall", "call") and str(e[1][1]).endswith("set_value"):
+                t = e[1]
+                args = t[3] if t[0] == "xcall" else tuple(v for _, v in t[3]) if t[0] == "call" and t[3] and isinstance(t[3][0], tuple) and len(t[3][0]) == 2 and isinstance(t[3][0][0], str) else t[3]
+                writes.append((t[2], args[0] if args else None, e[-1]))
+        n += 1
+        if len(writes) != 1:
+            bad[f"{len(writes)} writes"] = (f"a returning path of _fill_cell writes the cell {len(writes)} times (expected once)", f.node)
+            continue
+        target, val, node = writes[0]
+        if "sheet[(row_index, column_index)]" not in show(target):
+            bad["target " + show(target)] = (f"_fill_cell writes {show(target)}; expected sheet[row_index, column_index]", node)
+        is_float = val is not None and val[0] == "xcall" and val[1] == "float" and len(val[3]) == 1 and val[3][0] == value
+        none_path = any(c == ("cmp", "is", value, ("const", None)) for c in p.conds())
+        if none_path:
+            continue  # whatever stands in for None alters no figure (no computed value is None)
+        if not (val == value or is_float):
+            bad["value " + show(val)] = (
+                f"on the path {[show(c)[:70] for c in p.conds() if 'style' not in show(c)]} _fill_cell writes {show(val)}, not the value it was given (or float(value) for an RP2Decimal): "
+                "cells the generators fill with a computed figure show something else for some values (e.g. an exact zero or None)",
+                node,
+            )
+        elif is_float and not any("isinstance(value, class:rp2.rp2_decimal:RP2Decimal)" in show(c) and c[0] != "not" for c in p.conds()):
+            bad["float " + show(val)] = ("_fill_cell converts with float() a value that is not known to be an RP2Decimal", node)
+    for k, (msg, node) in bad.items():
+        rep.violation(rule, f.module, f.qualname, f"cell sink: {k[:80]}", msg, loc(node))
+    if not bad:
+        rep.ok(rule, "cell sink: every returning path of _fill_cell writes value / float(value) once to sheet[row_index, column_index]", f"{n} paths")
+
+
+# --------------------------------------------------------------------------- shared: the per-type counter counts fractions
+def check_type_counter(rep: Report, rule: str) -> None:
+    """The tax reports size each sheet with get_transaction_type_count(type) and then write one row per fraction of the window: the counter must be
+    incremented by exactly one, under the fraction's own event type, on every completed iteration of the numbering loop (after the to-date cut)."""
+    from .symexec import SPath, SymExec
+
+    m = model()
+    prog, norm = m.prog, m.norm
+    f = prog.func("rp2.gain_loss_set", "GainLossSet._sort_entries")
+    rep.analysed(f)
+    loops = [n for n in f.node.body if isinstance(n, ast.For) and isinstance(n.target, ast.Name) and unparse(n.iter) == "self._entry_list"]
+    if len(loops) != 1:
+        raise AnalysisError("GainLossSet._sort_entries: expected one numbering loop over self._entry_list")
+    loop = loops[0]
+    init = SPath()
+    init.vars[loop.target.id] = (("sym", "gl"), ("cls", "rp2.gain_loss:GainLoss"))
+    paths = SymExec(norm, norm.ctx_for(f, subst_locals=False)).run(loop.body, init)
+    want_key = "gl.[GainLoss.__taxable_event].[AbstractTransaction.__transaction_type]"
+    done = [p for p in paths if p.exit in ("fall", "continue")]
+    if not done:
+        raise AnalysisError("GainLossSet._sort_entries: the numbering loop has no completing path")
+    bad = None
+    for p in done:
+        st = [e for e in p.stores() if "__transaction_type_2_count" in show(e[1])]
+        ok = len(st) == 1 and show(st[0][2]) == want_key and show(st[0][3]) == f"(1 + old({show(st[0][1])}[{want_key}]))"
+        if not ok:
+            bad = (p, st)
+            break
+    g = prog.func("rp2.gain_loss_set", "GainLossSet.get_transaction_type_count")
+    rets = [n for n in ast.walk(g.node) if isinstance(n, ast.Return) and n.value is not None]
+    getter_ok = len(rets) == 1 and unparse(rets[0].value) == f"self.__transaction_type_2_count[{g.param_names[1]}]" if len(g.param_names) > 1 else False
+    rep.check(getter_ok, rule, g.module, g.qualname, "get_transaction_type_count returns the counter of the requested type", f"get_transaction_type_count returns {unparse(rets[0].value) if rets else None}; expected the counter stored under the requested type", loc(g.node))
+    if bad is None:
+        rep.ok(rule, "per-type counter: +1 under the fraction's own event type on each of the completed iterations", f"{len(done)} completing paths of the numbering loop")
+    else:
+        p, st = bad
+        rep.violation(
+            rule,
+            f.module,
+            f.qualname,
+            "per-type counter is not incremented once per fraction",
+            f"on a completed iteration ({[show(c)[:60] for c in p.conds()][:4]}) the counter receives {[(show(e[2]), show(e[3])[:80]) for e in st] or 'nothing'}; expected exactly one "
+            f"'count[{want_key}] += 1': the tax reports append get_transaction_type_count(type) rows per sheet and then write one row per fraction, so an undercount runs off the sheet (IndexError) for a disposal split over many lots",
+            loc(st[0][-1]) if st else loc(loop),
+        )
+
+
+# --------------------------------------------------------------------------- shared: private names are per class
+def _private_uses(ci) -> Dict[str, Dict[str, List[ast.AST]]]:
+    """bare private name -> {'store': [...], 'load': [...]} for attribute accesses and class-body assignments written inside the class (name mangling is lexical)."""
+    out: Dict[str, Dict[str, List[ast.AST]]] = {}
+
+    def rec(name: str, kind: str, node: ast.AST) -> None:
+        if name.startswith("__") and not name.endswith("__"):
+            out.setdefault(name, {"store": [], "load": []})[kind].append(node)
+
+    for n in ast.walk(ci.node):
+        if isinstance(n, ast.ClassDef) and n is not ci.node:
+            continue
+        if isinstance(n, ast.Attribute):
+            rec(n.attr, "store" if isinstance(n.ctx, (ast.Store, ast.Del)) else "load", n)
+    for st in ci.node.body:
+        tgt = st.targets[0] if isinstance(st, ast.Assign) and len(st.targets) == 1 else st.target if isinstance(st, ast.AnnAssign) else None
+        if isinstance(tgt, ast.Name):
+            rec(tgt.id, "store", st)
+    return out
+
+
+def check_private_shadowing(rep: Report, rule: str, classes=None) -> int:
+    """`self.__x` written inside class Sub is the attribute `_Sub__x`; the same spelling inside a base class is `_Base__x`. A subclass that only (re)binds
+    `__x` and never reads it, while a base class of the package reads its own `__x`, resets an attribute nobody looks at: the base's table keeps its contents."""
+    m = model()
+    prog = m.prog
+    n = 0
+    for ci in classes if classes is not None else list(prog.classes.values()):
+        uses = _private_uses(ci)
+        bases = [b for b in prog.mro(ci)[1:] if b.module.startswith("rp2")]
+        for name, u in sorted(uses.items()):
+            for b in bases:
+                bu = _private_uses(b).get(name)
+                if not bu:
+                    continue
+                n += 1
+                if u["store"] and not u["load"] and bu["load"]:
+                    st = u["store"][-1]
+                    rep.violation(
+                        rule,
+                        ci.module,
+                        ci.name,
+                        f"{ci.name} rebinds {name}, which only {b.name} reads",
+                        f"{short(_stmt_of(st), 90)} inside class {ci.name} binds the attribute _{ci.name.lstrip('_')}{name} (private names are mangled per class) and nothing in {ci.name} reads it, while "
+                        f"{b.name} keeps and reads its own _{b.name.lstrip('_')}{name} ({short(_stmt_of(bu['load'][0]), 80)}): the reset never reaches the table that is used, which therefore "
+                        "keeps the entries of earlier assets / runs",
+                        loc(st),
+                    )
+    return n
+
+
+def _stmt_of(node: ast.AST) -> ast.AST:
+    from .loader import parent
+
+    cur = node
+    while cur is not None and not isinstance(cur, ast.stmt):
+        cur = parent(cur)
+    return cur if cur is not None else node
